@@ -96,6 +96,9 @@ def _unit_spec(r, tag, avars, proc_init=False):
         # documented legacy style: every step comes out of generate_processes
         for sp in steps:
             sp['where'] = 'processes'
+    if r.chance(50):
+        # listing order is not dependency order
+        steps = r.shuffle(steps)
     return {'procs': procs, 'steps': steps}
 
 
